@@ -631,3 +631,103 @@ package bigbuff
 //@ func (*Buffer).cleanup
 //@   props C04 C12 C01
 //@   loop WaitCond>0 invariant mon : inv(b.mutex) && heldW(b.mutex)
+
+// ---------------------------------------------------------------------------------------------------
+// C19 — Callable (callable.go), relative to the trusted specification of package reflect (rt_* / rv_*
+// are its uninterpreted functions; kinds: 18 chan, 19 func, 20 interface, 21 map, 22 pointer, 23 slice).
+
+//@ func typesInOut
+//@   props C19
+//@   inline
+//@   requires count : n >= 0 && fn != nil
+//@   ensures len : len(ret) == n
+
+//@ func typesArgs
+//@   props C19
+//@   nopanic always : true
+//@   ensures types : len(ret) == len(args) && all(i, 0, len(args), ret[i] == rt_of(args[i]) && (ret[i] == nil) == (args[i] == nil))
+//@   loop 0 invariant filled : len(r) == len(args) && all(j, 0, rangeindex + 1, r[j] == rt_of(args[j]) && (r[j] == nil) == (args[j] == nil))
+
+//@ func resolveArgs
+//@   props C19
+//@   requires func : this != nil && rt_kind(this) == 19
+//@   nopanic always : true
+//@   loop typesInOut>0 invariant ins : len(r) == n && n == rt_numin(this) && all(j, 0, rangeindex + 1, r[j] == rt_in(this, j) && r[j] != nil)
+//@   loop 0 invariant expand : rt_variadic(this) && variadic != nil && variadic == rt_elem(rt_in(this, rt_numin(this) - 1)) && len(in__0) >= rt_numin(this) - 1 && all(j, 0, rt_numin(this) - 1, in__0[j] == rt_in(this, j)) && all(j, rt_numin(this) - 1, len(in__0), in__0[j] == variadic) && all(j, 0, len(in__0), in__0[j] != nil)
+//@   loop 1 invariant checked : len(in__0) == len(args) && all(j, 0, rangeindex + 1, (args[j] != nil ==> rt_assignable(args[j], in__0[j])) && (args[j] == nil ==> rnilable(rt_kind(in__0[j]))))
+//@   ensures ok : ret1 == nil ==> len(ret0) == len(args) && all(i, 0, len(args), ret0[i] != nil && (args[i] != nil ==> rt_assignable(args[i], ret0[i])) && (args[i] == nil ==> rnilable(rt_kind(ret0[i]))))
+//@   ensures fixed : ret1 == nil && !rt_variadic(this) ==> len(args) == rt_numin(this) && all(i, 0, len(args), ret0[i] == rt_in(this, i))
+//@   ensures spread : ret1 == nil && rt_variadic(this) ==> len(args) >= rt_numin(this) - 1 && all(i, 0, rt_numin(this) - 1, ret0[i] == rt_in(this, i)) && all(i, rt_numin(this) - 1, len(args), ret0[i] == rt_elem(rt_in(this, rt_numin(this) - 1)))
+//@   ensures err : ret1 != nil ==> ret0 == nil
+
+//@ func NewCallable
+//@   props C19
+//@   panics notfunc : rt_kind(rt_of(fn)) != 19
+//@   ensures callable : ret != nil
+
+//@ func Call
+//@   props C19
+//@   requires typed : caller != nil
+//@   loop 0 invariant pristine : icalls("(Callable).Call") == 0
+//@   ensures invoked : icalls("(Callable).Call") == 1 ==> ret == ilast("(Callable).Call", 0)
+//@   ensures skipped : icalls("(Callable).Call") == 0 ==> ret != nil
+//@   ensures once : icalls("(Callable).Call") <= 1
+
+//@ func (Callable).Type
+//@   ensures valid : ret0 != nil
+//@ func (Callable).Call
+//@   maypanic
+
+//@ func CallArgs$1
+//@   props C19
+//@   modular
+//@   requires cfg : config != nil && config.this != nil && rt_kind(config.this) == 19
+//@   nopanic always : true
+//@   ensures failed : ret != nil ==> config.args == old(config.args) && config.results == old(config.results)
+//@   ensures thunk : ret == nil ==> config.args != nil && config.results == old(config.results)
+
+//@ func CallResults$1
+//@   props C19
+//@   modular
+//@   requires cfg : config != nil && config.this != nil && rt_kind(config.this) == 19
+//@   nopanic always : true
+//@   loop typesInOut>0 invariant outs : len(r) == n && n == rt_numout(config.this) && all(j, 0, rangeindex + 1, r[j] == rt_out(config.this, j) && r[j] != nil)
+//@   loop 0 invariant validated : len(out__0) == len(results) && len(out__0) == rt_numout(config.this) && all(j, 0, len(out__0), out__0[j] == rt_out(config.this, j) && out__0[j] != nil) && all(j, 0, rangeindex + 1, results[j] != nil && rt_kind(rt_of(results[j])) == 22 && !rv_isnil(rv_of(results[j])) && rt_assignable(rt_out(config.this, j), rt_elem(rt_of(results[j]))))
+//@   ensures failed : ret != nil ==> config.results == old(config.results) && config.args == old(config.args)
+//@   ensures validated : ret == nil ==> len(results) == rt_numout(config.this) && all(j, 0, len(results), results[j] != nil && rt_kind(rt_of(results[j])) == 22 && !rv_isnil(rv_of(results[j])) && rt_assignable(rt_out(config.this, j), rt_elem(rt_of(results[j]))))
+//@   ensures untouched : icalls("rvset") == 0
+
+//@ func CallResultsSlice$1
+//@   props C19
+//@   modular
+//@   requires cfg : config != nil && config.this != nil && rt_kind(config.this) == 19
+//@   nopanic always : true
+//@   loop typesInOut>0 invariant outs : len(r) == n && n == rt_numout(config.this) && all(j, 0, rangeindex + 1, r[j] == rt_out(config.this, j) && r[j] != nil)
+//@   loop 0 invariant validated : len(out__0) == rt_numout(config.this) && elem != nil && all(j, 0, len(out__0), out__0[j] != nil)
+//@   ensures failed : ret != nil ==> config.results == old(config.results) && config.args == old(config.args)
+
+//@ func (*callable).Call
+//@   props C19
+//@   requires recv : x != nil
+//@   ensures invoked : ret == nil ==> icalls("(callableValue).Call") == 1
+//@   ensures rejected : ret != nil ==> icalls("(callableValue).Call") == 0
+
+//@ func (callableValue).Call
+//@   maypanic
+
+//@ func CallArgs$1$1
+//@   props C19
+//@   modular
+//@   requires validated : len(fv_in) == len(args) && all(i, 0, len(fv_in), fv_in[i] != nil && (args[i] != nil ==> rt_assignable(rt_of(args[i]), fv_in[i])) && (args[i] == nil ==> rnilable(rt_kind(fv_in[i]))))
+//@   nopanic always : true
+//@   ensures arity : len(results) == len(fv_in)
+//@   loop 0 invariant filled : len(results) == len(fv_in)
+
+//@ func CallResults$1$1
+//@   props C19
+//@   modular
+//@   requires validated : all(j, 0, len(results), results[j] != nil && rt_kind(rt_of(results[j])) == 22 && !rv_isnil(rv_of(results[j])))
+//@   # calling convention of reflect.MakeFunc (A-LIB): the thunk receives one valid Value per parameter of its FuncOf type
+//@   requires arity : len(args) == len(results)
+//@   requires typed : all(j, 0, len(args), rv_valid(args[j]) && rt_assignable(rv_type(args[j]), rt_elem(rt_of(results[j]))))
+//@   nopanic always : true
